@@ -1,8 +1,20 @@
 use sim::work::*;
+use std::sync::Arc;
+use searchlite_core::storage::{InMemoryStorage, Storage};
 fn main() {
-  let a: Vec<String> = std::env::args().collect();
-  let ver: u64 = a[1].parse().unwrap();
-  let d = make_doc(Profile::Nested, "d1", ver);
-  println!("{}", serde_json::to_string(&d.fields).unwrap());
-  println!("{}", stored_projection(Profile::Nested, &d));
+  // size of the postings file of a commit made of one token-less document
+  let cfg = Cfg { storage: StorageKind::Mem, profile: Profile::Basic, positions: true, ids: 2, transparent: false, odd_ids: false };
+  let root = std::path::PathBuf::from("/mem");
+  let mut s = Session::create(&cfg, &root, None).unwrap_or_else(|o| panic!("{:?}", o));
+  s.exec(&Op::NewWriter { h: 0 });
+  println!("{:?}", s.exec(&Op::Add { h: 0, id: "d0".into(), ver: 5 }));
+  println!("{:?}", s.exec(&Op::Commit { h: 0 }));
+  let mem: Arc<InMemoryStorage> = s.mem.clone().unwrap();
+  let m = s.index.as_ref().unwrap().manifest();
+  for seg in m.segments {
+    for p in [&seg.paths.postings, &seg.paths.terms, &seg.paths.docstore] {
+      println!("{} {}", p, mem.read_to_end(std::path::Path::new(p)).map(|d| d.len()).unwrap_or(9999));
+    }
+  }
+  println!("{:?}", s.observe().map(|o| o.short()));
 }
